@@ -1,4 +1,4 @@
 SPECIFICATION TraceSpec
-INVARIANTS NoPanic HarnessRange HarnessExact C14_Close C14_Once C14_Dead C14_OnlyClose
+INVARIANTS NoPanic HarnessRange HarnessExact C14_Close C14_RefundExact C14_Once C14_Dead C14_OnlyClose
 POSTCONDITION Accepted
 CHECK_DEADLOCK FALSE
